@@ -24,8 +24,17 @@ RULE = (
     "Sub-check large_batches: the same oracle on batches of 33..2050 rows (size classes around and beyond the block sizes "
     "128 and 1024 that chunked evaluation would use), coordinates from a seeded lattice."
 )
-ASSUMPTIONS = ["tolerance 1e-9*(1+sum|terms|) in x64", "explicit *Batch objects; generator-produced batches are covered by C08/C14"]
+ASSUMPTIONS = ["tolerance 1e-9*(1+sum|terms|) in x64, 1e-3*(1+scale) in the 32-bit variant", "explicit *Batch objects; generator-produced batches are covered by C08/C14"]
 TOL = 1e-9
+
+
+def _tol(x64_tol=TOL):
+    """Comparison tolerance: the stated one in x64, 1e-3 (sums: 1e-5) in the library's default 32-bit precision."""
+    import jax
+
+    if jax.config.jax_enable_x64:
+        return x64_tol
+    return 1e-3 if x64_tol >= 1e-10 else 1e-5
 
 
 def _evaluate(spec):
@@ -48,7 +57,7 @@ def run_case(case):
         if v.shape != ():
             return fail(f"term-not-scalar:{k}", {"shape": list(v.shape)}, labels=labels)
     s = float(sum(float(v) for v in terms.values()))
-    if not abs(total - s) <= 1e-12 * (1 + abs(s)):
+    if not abs(total - s) <= _tol(1e-12) * (1 + abs(s)):
         return fail("total-not-sum-of-terms", {"total": total, "sum": s, "terms": {k: float(v) for k, v in terms.items()}},
                     labels=labels)
     conf = {"dyn_loss": spec.get("eq"), "initial_condition": spec.get("ic"), "boundary_loss": spec.get("boundary"),
@@ -59,7 +68,7 @@ def run_case(case):
     R = detail["residuals"]
     scale = float(np.mean(np.sum(np.abs(np.atleast_1d(np.asarray(spec["w"]["dyn_loss"], dtype=float)) * R**2), axis=1)))
     got = float(terms["dyn_loss"])
-    if not abs(got - want["dyn_loss"]) <= TOL * (1 + scale):
+    if not abs(got - want["dyn_loss"]) <= _tol() * (1 + scale):
         return fail("dyn-term-value", {"got": got, "want": want["dyn_loss"], "residuals": R.tolist(),
                                        "w": spec["w"]["dyn_loss"]}, labels=labels)
     n, c = R.shape
@@ -78,7 +87,7 @@ def run_case(case):
         expect = lam * got
         labels.append("w-scalar")
     g2 = float(_evaluate(spec2)[1]["dyn_loss"])
-    if not abs(g2 - expect) <= TOL * (1 + lam * scale):
+    if not abs(g2 - expect) <= _tol() * (1 + lam * scale):
         return fail("dyn-term-not-linear-in-weight", {"got": g2, "want": expect}, labels=labels)
     if n >= 2 and spec.get("param_batch") is None and spec.get("obs") is None and spec["kind"] != "nonstatio":
         key = "t" if spec["kind"] == "ode" else "x"
@@ -88,7 +97,7 @@ def run_case(case):
         spec3 = copy.deepcopy(spec)
         spec3["batch"][key] = [spec["batch"][key][i] for i in order]
         g3 = float(_evaluate(spec3)[1]["dyn_loss"])
-        if not abs(g3 - got) <= TOL * (1 + scale):
+        if not abs(g3 - got) <= _tol() * (1 + scale):
             return fail("dyn-term-not-permutation-invariant", {"got": g3, "want": got, "order": order}, labels=labels)
         labels.append("perm")
         if n % 2 == 0:
@@ -98,7 +107,7 @@ def run_case(case):
                 sp["batch"][key] = [spec["batch"][key][i] for i in part]
                 sp["ic"] = sp["boundary"] = sp["norm"] = None
                 halves.append(float(_evaluate(sp)[1]["dyn_loss"]))
-            if not abs(0.5 * (halves[0] + halves[1]) - got) <= TOL * (1 + scale):
+            if not abs(0.5 * (halves[0] + halves[1]) - got) <= _tol() * (1 + scale):
                 return fail("dyn-term-not-average-of-halves", {"halves": halves, "whole": got}, labels=labels)
             labels.append("halves")
     rs, cs = R.sum(axis=1), (R**2).sum(axis=0)
@@ -138,6 +147,10 @@ def subchecks():
                  counts={"quick": 200, "thorough": 4000}, shards={"quick": 8, "thorough": 16}, clear_every=60,
                  min_nontrivial_frac=0.3,
                  doc="total/terms consistency, exact zeros, dynamic term vs point-by-point numpy reference, metamorphic relations"),
+        SubCheck(name="assembly_and_dynamic_term_f32", mode="given", strategy=strat, run_case=run_case, x64=False,
+                 counts={"quick": 96, "thorough": 2000}, shards={"quick": 8, "thorough": 16}, clear_every=60,
+                 min_nontrivial_frac=0.3,
+                 doc="the same oracle in the library's default 32-bit precision (tolerance 1e-3 relative to the term's scale)"),
         SubCheck(name="large_batches", mode="given", strategy=strat_big, run_case=run_case,
                  counts={"quick": 32, "thorough": 600}, shards={"quick": 8, "thorough": 16}, clear_every=8,
                  min_nontrivial_frac=0.3,
